@@ -6,7 +6,7 @@ Import ListNotations.
 From Coq Require Import ZArith.
 From CXV Require Import Gen.TokTy Gen.ParserTables Parse.Balanced Gen.Blocks Parse.BlocksSM.
 From CXV Require Import Base.Regex Base.Cost Gen.LexRules Lex.PlyLoop Gen.StreamTables Stream.TokBuf Fmt.TokFmt PP.Filters Misc.ReprModel Gen.Schema Parse.Fold Parse.Declarator Parse.DeclSpec Parse.EnumList Parse.BaseClause Parse.NsHeader Parse.Specs Parse.VarStmt Parse.FnTail Parse.Init Parse.Members Parse.MethodTail Parse.Template Parse.PQName Parse.Using Parse.EnumDecl Parse.ClassEnum Parse.TemplateArg Parse.CtorDtor Parse.ParamsX Parse.DeclStmt Parse.TemplateStmt Parse.MemberStmt Parse.OpName.
-From CXV Require Parse.DispatchLang Gen.Dispatch Parse.FinishClass Parse.ConvOp Parse.OperatorMember Parse.OperatorFn Parse.MethodImpl Parse.TemplateInst Parse.FriendStmt.
+From CXV Require Parse.DispatchLang Gen.Dispatch Parse.FinishClass Parse.ConvOp Parse.OperatorMember Parse.OperatorFn Parse.MethodImpl Parse.TemplateInst Parse.FriendStmt Parse.Bodies.
 From CXV Require Parse.Requires.
 Open Scope N_scope.
 
@@ -946,8 +946,64 @@ Definition run_friend_stmt (args : list N) : list N :=
   | DErr e => [1; e]
   end.
 
+(* 119 / 120: whole bodies (Parse/Bodies.v).
+   119: a class body up to its closing brace: statement budget, declarator budget, class id, '~' id, default access (token type),
+        tokens.  Output: 0, rest length, item count, per item: access, kind (0 members | 1 conversion | 2 operator | 3 friend), then
+        0: nine flags, count, entries as for 108;  1: as 113 behind its rest length;  2: as 114;  3: as 118
+   120: a namespace body: statement budget, declarator budget, tokens.  Output: 0, rest length, item count, per item: kind
+        (0 declarations: nine flags, count, entries as 106 | 1 operator function as 115 | 2 method definition as 116 | 3 typedefs: count, entries) *)
+Definition enc_mtail (q : mtail) : list N :=
+  bN (q_const q) :: bN (q_volatile q) :: bN (q_override q) :: bN (q_final q) :: q_ref q ::
+    enc_opt_tks (q_throw q) ++ enc_opt_tks (q_noexcept q) ++ [bN (q_pure q); bN (q_deleted q); bN (q_default q); bN (q_body q)].
+Definition enc_fnty (rt : ty) (ps : list (ty * option N)) (va : bool) : list N := let x := enc_ty (TFn rt ps va) in nlen x :: x.
+Definition enc_citem (it : Bodies.citem) : list N :=
+  match it with
+  | Bodies.CMembers m l => 0 :: enc_mods m ++ nlen l :: flat_map enc_mentry l
+  | Bodies.CConv cv => 1 :: enc_mods (ConvOp.cv_mods cv) ++ enc_fnty (ConvOp.cv_type cv) (ConvOp.cv_params cv) (ConvOp.cv_vararg cv) ++ enc_mtail (ConvOp.cv_tail cv)
+  | Bodies.COp om => 2 :: enc_mods (OperatorMember.om_mods om) ++ nlen (OperatorMember.om_op om) :: enc_tks (OperatorMember.om_op om) ++
+                     enc_fnty (OperatorMember.om_ret om) (OperatorMember.om_params om) (OperatorMember.om_vararg om) ++ enc_mtail (OperatorMember.om_tail om)
+  | Bodies.CFriend (FriendStmt.FrType m b) => 3 :: enc_mods m ++ [0; b]
+  | Bodies.CFriend (FriendStmt.FrFn m nm rt ps va q) => 3 :: enc_mods m ++ 1 :: nm :: enc_fnty rt ps va ++ enc_mtail q
+  end.
+Definition run_class_body (args : list N) : list N :=
+  match args with
+  | k :: n :: cls :: dcls :: acc :: r =>
+      let toks := dec_tks r in
+      match Bodies.class_body (N.to_nat k) (N.to_nat n) (4 * length toks + 8) cls dcls acc toks with
+      | DOk (l, rest) => 0 :: nlen rest :: nlen l :: flat_map (fun p => fst p :: enc_citem (snd p)) l
+      | DErr e => [1; e]
+      end
+  | _ => [1; 0]
+  end.
+Definition enc_nitem (it : Bodies.nitem) : list N :=
+  match it with
+  | Bodies.NDecls m l => 0 :: enc_mods m ++ nlen l :: flat_map enc_entry l
+  | Bodies.NOpFn om =>
+      let tl := OperatorFn.of_tail om in
+      1 :: enc_mods (OperatorFn.of_mods om) ++ nlen (OperatorFn.of_op om) :: enc_tks (OperatorFn.of_op om) ++
+        enc_fnty (OperatorFn.of_ret om) (OperatorFn.of_params om) (OperatorFn.of_vararg om) ++
+        enc_opt_tks (t_throw tl) ++ enc_opt_tks (t_noexcept tl) ++ [bN (t_body tl); bN (t_deleted tl)]
+  | Bodies.NMethodImpl mi =>
+      let names := flat_map (fun s => match s with SName n => [n] | _ => [0] end) (MethodImpl.mi_segs mi) in
+      2 :: enc_mods (MethodImpl.mi_mods mi) ++ nlen names :: names ++
+        enc_fnty (MethodImpl.mi_ret mi) (MethodImpl.mi_params mi) (MethodImpl.mi_vararg mi) ++ enc_mtail (MethodImpl.mi_tail mi)
+  | Bodies.NTypedefs l => 3 :: nlen l :: flat_map enc_entry l
+  end.
+Definition run_ns_body (args : list N) : list N :=
+  match args with
+  | k :: n :: r =>
+      let toks := dec_tks r in
+      match Bodies.ns_body (N.to_nat k) (N.to_nat n) (4 * length toks + 8) toks with
+      | DOk (l, rest) => 0 :: nlen rest :: nlen l :: flat_map enc_nitem l
+      | DErr e => [1; e]
+      end
+  | _ => [1; 0]
+  end.
+
 Definition run_case (cmd : N) (args : list N) : list N :=
   match cmd, args with
+  | 120, _ => run_ns_body args
+  | 119, _ => run_class_body args
   | 118, _ => run_friend_stmt args
   | 117, _ => run_template_inst args
   | 116, _ => run_method_impl args
